@@ -36,8 +36,12 @@ ORACLE_PREMISES = [
     'W1: pydicom write followed by read preserves PixelData bytes and the functional-group element values',
     'K(ts): for RLE Lossless and JPEG-LS Lossless, decode(encode(frame)) = frame on the frames admitted (exercised, not proved)',
     'Q1: the SQLite inner join of _iterate_indices_for_stack returns exactly the rows with equal keys (modelled as a list look-up)',
-    'G1: the plane sort permutation is supplied by geometry (C03/C11); the model takes it as an input, any permutation '
-    '(frames of a tiled source handed over frame by frame: ascending (row, column) position in the total pixel matrix)',
+    'G1: the POSITION of every source plane is supplied by geometry (C03/C11) as an integer stand-in with the same '
+    'order and the same equalities (distance along the normal: minus the rank along z; frames of a tiled source handed '
+    'over frame by frame: row-major tile index = ascending (row, column) position); from these the model computes the '
+    'plane sort index (np.unique with return_index) and applies the uniqueness guard itself (kinds rt, rt_mf, '
+    'rt_encaps, rt_layout, rt_dup, rt_tiled_frames); kinds rt_hist / observe / sched / malformed still take the sort '
+    'permutation as an input',
     'F1: float32/float64 products x*max_fractional_value are exact on the dyadic inputs drawn (den | 1024), '
     'np.around is round-half-even',
     'P1: futures are gathered in submission order (frame list = map encode frames) for workers = n / executor',
@@ -55,16 +59,28 @@ MODELLED = ('Segmentation.__init__ pixel path (_check_segment_numbers, bit depth
             'future identity); the tile_pixel_array=True entry point: spatial.py tile grid '
             '(compute_tile_positions_per_frame offsets, row-major), get_tile_array (clipped slice + np.pad after), '
             'the shape[0]==1 / total-pixel-matrix-shape / TILED_FULL+omit guards, arange plane order, then the same '
-            'frame loop and read path (construct_tiled). Not modelled: '
-            'geometry (plane sorting, taken as input), dataset attribute copying, codecs, file I/O, the memory '
+            'frame loop and read path (construct_tiled); seg/content.py DimensionIndexSequence.get_index_values: '
+            'np.unique(positions, return_index=True) as sort index + the guard "positions are not unique" '
+            '(construct_pos / unique_index, over integer stand-ins of the positions); the refusal of a floating '
+            'point 2-D / 3-D 0.0/1.0 mask for BINARY / LABELMAP when 1 is not a described number (fix of D117). '
+            'Not modelled: '
+            'geometry (how a position becomes a distance / tuple; positions enter as integer stand-ins), dataset attribute copying, codecs, file I/O, the memory '
             'layout of the input numpy array (the model sees values only; layouts are exercised, kind rt_layout).')
 STRATA = ['rt', 'rt_mf', 'rt_nofor', 'rt_encaps', 'rescale', 'malformed', 'odd', 'pack', 'frame_at', 'rhe',
-          'rt_layout', 'rt_hist', 'observe', 'sched', 'rt_tiled', 'rt_tiled_frames', 'tiled_bad']
+          'rt_layout', 'rt_hist', 'observe', 'sched', 'rt_tiled', 'rt_tiled_frames', 'tiled_bad', 'rt_dup']
 RULE = ('rt*: rows x cols with every residue of rows*cols mod 8 incl. < 8 pixels, 1..5 planes x 1..4 segments, '
         'masks empty/full/sparse/per-segment-empty planes, dtype bool/uint8/uint16/float32/float64, label-map and '
         'stacked layouts (2-D/3-D/4-D), BINARY/FRACTIONAL/LABELMAP (sparse and > 255 segment numbers), '
         'max_fractional_value in {1,2,3,100,255}, omit_empty_frames on/off, implicit/explicit/RLE/JPEG-LS, '
-        'workers 0 / ThreadPoolExecutor / 2, in-memory + segread + lazy segread, shuffled source positions; '
+        'workers 0 / ThreadPoolExecutor / 2, in-memory + segread + lazy segread, shuffled source positions, '
+        'spacing 2.5 / 0.001 / 1000 / irregular with offset; LABELMAP x 2-D / 3-D BINARY MASK (0 / 1) in every dtype '
+        '(bool, uint8, uint16, float32, float64) x sparse described numbers with and without 1 x non-empty / all-zero '
+        'mask (D117 dimension: refused with ValueError or every described segment reads back as given), in every rt* '
+        'kind incl. tiled; two source planes at ONE position (5 % of rt / rt_mf / rt_encaps / rt_layout, 12 % of '
+        'rt_tiled_frames = repeated frame position of a TILED_SPARSE source) and kind rt_dup: series of single '
+        'frames / frames of one multi-frame image with 1-2 repeated positions, mask plane of the later image not '
+        'empty, all types / layouts / dtypes / omit / native + RLE: the constructor must refuse with ValueError '
+        '(nothing stored) or every plane must read back (the model refuses: construct_pos); '
         'rt_layout: the same mask handed over in every numpy memory layout (Fortran order, per-plane transposed view, '
         'strided view of a larger buffer, negative strides, channel-first buffer viewed channel-last, read-only), '
         'native and RLE, the caller\'s buffer overwritten after construction; rt_hist: a schedule of calls on each of '
@@ -265,7 +281,20 @@ def _valid_case(rng, kind, source='series', ts=None, big=False, force_ty=None, s
     dtype = rng.choice(INT_DT + FLT_DT)
     den, mf = 1, rng.choice([1, 2, 3, 100, 255])
     two_d = False
-    if layout == 'label':
+    # D117 dimension: a BINARY MASK (values 0 / 1, every input dtype incl. bool / float32 / float64) handed over
+    # as a 2-D / 3-D array for a LABELMAP whose described numbers are sparse and may or may not contain 1
+    binmask = ty == 'LABELMAP' and layout == 'label' and kind != 'rescale' and rng.random() < 0.5
+    if binmask:
+        with1 = rng.random() < 0.4
+        pool = [2, 3, 5, 7, 200, 255, 256, 300, 1000, 65535]
+        segs = sorted(rng.sample(pool, S - 1 if with1 else S) + ([1] if with1 else []))
+        m1 = _mask(rng, P, n, 1, 'empty' if rng.random() < 0.2 else mode)
+        nz = any(px[0] for pl in m1 for px in pl)
+        if nz and 1 not in segs and not (kind in REFUSABLE and rng.random() < 0.75):
+            segs[0] = 1         # kinds whose oracle wants an accepted object: keep the mask described
+        data = [[px[0] for px in pl] for pl in m1]
+        two_d = P == 1 and rng.random() < 0.5
+    elif layout == 'label':
         if dtype in FLT_DT:
             # a float label array is a single segment
             S, segs = 1, [1]
@@ -283,7 +312,7 @@ def _valid_case(rng, kind, source='series', ts=None, big=False, force_ty=None, s
         data = m
     if dtype in FLT_DT:
         den = rng.choice([1, 2, 4, 256, 1024])
-        if ty == 'FRACTIONAL' and rng.random() < 0.8:
+        if ty == 'FRACTIONAL' and not binmask and rng.random() < 0.8:
             # truly fractional values, dyadic, incl. exact .5 ties after scaling
             def fr(v):
                 return 0 if (v == 0 and rng.random() < 0.8) else rng.choice([den, rng.randint(0, den), den // 2, rng.randint(0, den)])
@@ -313,6 +342,112 @@ def _valid_case(rng, kind, source='series', ts=None, big=False, force_ty=None, s
          'data': data, 'zrank': zrank, 'ts': ts, 'workers': workers, 'source': source, 'two_d': two_d,
          'req': req, 'assert_missing': source in ('mf', 'sm') and rng.random() < 0.8, 'byframe': source in ('mf', 'sm'),
          'mem': rng.choice(MEM[1:]) if rng.random() < 0.12 else 'C'}
+    if binmask:
+        c['binmask'] = True
+    # positions of the source planes: spacing (regular 2.5 mm; arbitrarily close; far apart; irregular with an
+    # offset) and - kinds whose model takes the positions as its input - two planes at ONE position
+    if kind in POS_KINDS and source in ('series', 'mf') and P >= 2:
+        u = rng.random()
+        if u < 0.08:
+            c['zstep'] = rng.choice([0.001, 0.001, 1000.0])
+        elif u < 0.2:
+            z, zs = rng.choice([0.0, -100.0, 37.5]), []
+            for _ in range(P):
+                zs.append(z)
+                z = round(z + rng.choice([0.001, 0.5, 2.5, 7.25]), 6)
+            c['zstep'] = zs
+        if rng.random() < 0.05:
+            _tie(rng, c)
+    return c
+
+
+# kinds in which a refusal by the constructor is a legitimate outcome the oracle judges (D117 dimension)
+REFUSABLE = ('rt', 'rt_mf', 'rt_nofor', 'rt_encaps', 'rt_layout', 'rt_tiled', 'rt_hist', 'observe')
+# kinds whose model term takes the plane POSITIONS (run_seg_pos), not the sort permutation
+POS_KINDS = ('rt', 'rt_mf', 'rt_encaps', 'rt_layout', 'rt_dup')
+
+
+def _tie(rng, c, later=None):
+    """put a later plane at the position of an earlier one (a repeated acquisition, a second echo, a localiser
+    inside the series): zrank gets a tie"""
+    P = c['P']
+    k = later if later is not None else rng.randrange(1, P)
+    j = rng.randrange(k)
+    c['zrank'] = list(c['zrank'])
+    c['zrank'][k] = c['zrank'][j]
+    if isinstance(c.get('zstep'), list):
+        c.pop('zstep')
+
+
+def _zs(c):
+    """position along the normal of every source plane"""
+    st = c.get('zstep')
+    if isinstance(st, list):
+        return [st[r] for r in c['zrank']]
+    return [(2.5 if st is None else st) * r for r in c['zrank']]
+
+
+def _has_dup(c):
+    """two source planes at one position (the constructor cannot tell their mask planes apart)"""
+    if c.get('source') in ('series', 'mf'):
+        return len(set(c['zrank'])) < len(c['zrank'])
+    if c.get('source') == 'sm' and not _tpm(c) and c.get('forder') is not None:
+        return len(set(c['forder'])) < len(c['forder'])
+    return False
+
+
+def _undescribed(c):
+    """a 2-D / 3-D (label map style) array with a pixel value that is not a described segment number - e.g. a
+    binary mask (bool / uint8 / float 0.0 / 1.0) for a LABELMAP whose described numbers do not include 1"""
+    if c['layout'] != 'label' or c['ty'] == 'FRACTIONAL' and _is_float(c):
+        return False
+    den = c['den'] if _is_float(c) else 1
+    ok = set([0] + list(c['segs']))
+    return any(px % den or px // den not in ok for pl in c['data'] for px in pl)
+
+
+def _binmask_case(rng, dtype, two_d, with1, zero):
+    """the D117 dimension, swept: LABELMAP, a 2-D / 3-D binary mask of the given dtype, sparse described numbers
+    with / without 1, mask all-zero or not"""
+    while True:
+        c = _valid_case(rng, 'rt', force_ty='LABELMAP', planes=1 if two_d else None,
+                        source=rng.choice(['series', 'series', 'mf']))
+        if c.get('binmask') and (two_d or c['P'] >= 2) and len(c['segs']) <= 3:
+            break
+    n = c['rows'] * c['cols']
+    pool = [2, 3, 5, 7, 200, 255, 256, 300, 1000, 65535]
+    S = len(c['segs'])
+    c['segs'] = sorted(rng.sample(pool, S - 1) + [1]) if with1 else sorted(rng.sample(pool, S))
+    c['dtype'], c['two_d'] = dtype, two_d
+    c['den'] = rng.choice([1, 2, 4, 256, 1024]) if dtype in FLT_DT else 1
+    m = [[0] * n for _ in range(c['P'])] if zero else [[1 if rng.random() < 0.4 else 0 for _ in range(n)] for _ in range(c['P'])]
+    if not zero:
+        m[rng.randrange(c['P'])][rng.randrange(n)] = 1
+    c['data'] = [[v * c['den'] for v in pl] for pl in m]
+    return c
+
+
+def _dup_case(rng, source):
+    """kind rt_dup: a valid mask, one plane per source image / frame, but two of the source planes lie at the SAME
+    position (distinct SOP instances / frames); the mask plane of the later one is not empty.  The constructor
+    must refuse (nothing stored) or store every plane."""
+    while True:
+        c = _valid_case(rng, 'rt_dup', source=source, ts=rng.choice([None, None, None, 'rle']))
+        nonempty = [k for k in range(1, c['P']) if any(any(px) if isinstance(px, list) else px for px in c['data'][k])]
+        if c['P'] >= 2 and nonempty and not _undescribed(c) and not _all_rounds_to_zero(c):
+            break
+    c['zrank'] = list(range(c['P']))
+    rng.shuffle(c['zrank'])
+    c.pop('zstep', None)
+    _tie(rng, c, later=rng.choice(nonempty))
+    if c['P'] >= 4 and rng.random() < 0.3:
+        _tie(rng, c)
+    if rng.random() < 0.3:
+        c['zstep'] = rng.choice([0.001, 1000.0, 0.5])
+    c['req'] = list(range(c['P']))
+    c.pop('req_is_numbers', None)
+    if c['byframe']:
+        c['assert_missing'] = True
     return c
 
 
@@ -455,6 +590,7 @@ def _d61(rng):
     lim = max(1, (1024 // (2 * c['maxfrac'])) - 1)
     c['data'] = [[[rng.choice([0, 0, rng.randint(1, lim)]) for _ in range(S)] for _ in range(n)] for _ in range(P)]
     c['data'][0][0][0] = 1
+    c.pop('binmask', None)
     if c['ts'] in ('rle', 'jpegls'):
         c['ts'] = 'explicit'
     return c
@@ -664,7 +800,7 @@ def _tiled_case(rng, mode=None, ts=None):
     return c
 
 
-def _tiled_frames_case(rng):
+def _tiled_frames_case(rng, dup=None):
     """the same kind of source, the mask handed over frame by frame (tile_pixel_array=False): one plane per source
     frame; a TILED_SPARSE source may list its frames in any order (forder[k] = tile index of source frame k)"""
     th, tw = rng.choice(TILE_SIZES)
@@ -676,6 +812,12 @@ def _tiled_frames_case(rng):
     src_full = rng.random() < 0.4
     if not src_full and rng.random() < 0.7:
         rng.shuffle(forder)
+    if not src_full and n >= 2 and (dup or dup is None and rng.random() < 0.12) and not _undescribed(c):
+        # two frames of the TILED_SPARSE source at ONE (row, column, x, y, z) position (the slide-coordinate
+        # branch of the position guard); the mask plane of the later one preferably not empty
+        nonempty = [k for k in range(1, n) if any(any(px) if isinstance(px, list) else px for px in c['data'][k])]
+        k = rng.choice(nonempty) if nonempty else rng.randrange(1, n)
+        forder[k] = forder[rng.randrange(k)]
     c.update(R=R, C=C, th=th, tw=tw, src_full=src_full, forder=forder, nsrc=n,
              perm=sorted(range(n), key=lambda k: forder[k]), workers=0 if c['workers'] == 2 else c['workers'])
     return c
@@ -752,9 +894,18 @@ def gen_cases(rng, tier):
                      srows=shape[0], scols=shape[1], P=P, nsrc=P, data=m, zrank=rng.sample(range(P), P),
                      ts=rng.choice(['implicit', 'explicit']), workers=0, two_d=False, req=list(range(P)),
                      omit=rng.random() < 0.5, source='series', byframe=False, assert_missing=False)
+            c.pop('zstep', None)
+            c.pop('binmask', None)
             cases.append(c)
-    for _ in range(150 * N):
+    for _ in range(135 * N):
         cases.append(_valid_case(rng, 'rt'))
+    # D117 dimension swept: every dtype x 2-D / 3-D x (1 not described: non-empty -> refusal, all-zero -> accepted;
+    # 1 described -> accepted, stored as label 1)
+    for dtype in INT_DT + FLT_DT:
+        for two_d in (False, True):
+            cases.append(_binmask_case(rng, dtype, two_d, with1=False, zero=False))
+        cases.append(_binmask_case(rng, dtype, rng.random() < 0.5, with1=True, zero=False))
+        cases.append(_binmask_case(rng, dtype, rng.random() < 0.5, with1=False, zero=True))
     for _ in range(40 * N):
         cases.append(_valid_case(rng, 'rt_mf', source='mf'))
     for _ in range(20 * N):
@@ -799,8 +950,13 @@ def gen_cases(rng, tier):
         cases.append(_tiled_case(rng, ts='rle'))
     for _ in range(3 * N):
         cases.append(_tame(_tiled_case(rng, ts='jpegls')))
-    for _ in range(16 * N):
+    for _ in range(14 * N):
         cases.append(_tiled_frames_case(rng))
+    for _ in range(2 * N):
+        cases.append(_tiled_frames_case(rng, dup=True))
+    # two source planes at one position (series of single frames, frames of one multi-frame image)
+    for src in ['series', 'series', 'mf', 'series', 'mf', 'series', 'series', 'mf'] * N:
+        cases.append(_dup_case(rng, src))
     for _ in range(12 * N):
         cases.append(_tiled_bad(rng))
     # pydicom packing
@@ -912,7 +1068,7 @@ def _apply_mem(a, mem):
 def _sources(c):
     import synth
     n = c['nsrc']
-    zs = [2.5 * r for r in c['zrank']]
+    zs = _zs(c)
     if c['source'] == 'mf':
         return [synth.ct_multiframe(zs, c['srows'], c['scols'])]
     if c['source'] == 'sm':
@@ -1427,6 +1583,13 @@ def coq_term(c):
     if k == 'rt_hist':
         return (f"(run_hist2 {_cfg(c)} {inp} {zl(_perm(c))} {zl(req)} "
                 f"{'true' if c['byframe'] else 'false'} {'true' if c['assert_missing'] else 'false'} {zl(c['hist'])})")
+    b = lambda x: 'true' if x else 'false'     # noqa
+    if k.startswith('rt') and c['source'] in ('series', 'mf', 'sm'):
+        # the model computes the plane sort index from the POSITIONS of the source planes (np.unique with
+        # return_index) and applies the uniqueness guard itself: stand-ins = minus the rank along z (the planes
+        # are encoded by decreasing z) / the row-major tile index of a frame of a tiled source
+        dist = c['forder'] if c['source'] == 'sm' else [-r for r in c['zrank']]
+        return f"(run_seg_pos {_cfg(c)} {inp} {zl(dist)} {zl(req)} {b(c['byframe'])} {b(c['assert_missing'])})"
     fn = 'run_seg_spec' if k.startswith('rt') else 'run_seg'
     return (f"({fn} {_cfg(c)} {inp} {zl(_perm(c))} {zl(req)} "
             f"{'true' if c['byframe'] else 'false'} {'true' if c['assert_missing'] else 'false'})")
@@ -1499,7 +1662,25 @@ def oracle(c, out):
         return None
     # ---- valid stream: the property ------------------------------------------
     if isinstance(out, Err):
+        # nothing was stored: legitimate (documented ValueError) when two source planes lie at one position - the
+        # mask planes could not be told apart - or when the label-map style array holds an undescribed value
+        if out == Err('ValueError') and (_has_dup(c) or _undescribed(c)):
+            return None
         return f'valid input refused by the constructor: {out}'
+    if _undescribed(c):
+        # accepted: faithful only if the described segment reads back as the mask that was given - possible for
+        # ONE described segment and a binary mask (the finding D117 was: stored as undescribed label 1, the
+        # described segment read back empty)
+        alt = None
+        if len(c['segs']) == 1 and k not in ('rt_hist', 'observe', 'sched') and not _tpm(c):
+            den = c['den'] if _is_float(c) else 1
+            if all(px in (0, den) for pl in c['data'] for px in pl):
+                alt = _want_read(dict(c, segs=[1], data=[[px // den for px in pl] for pl in c['data']], dtype='uint8', den=1))
+        if alt is None or any(r != alt for r in out[3:6]):
+            return ('a 2-D / 3-D array with values that are not described segment numbers (segments '
+                    f'{c["segs"]}, {c["dtype"]}) was accepted, and the described segments do not read back as the '
+                    'mask that was given (expected: ValueError "segments that lack descriptions")')
+        return None
     want = _want_read(c)
     if k == 'rescale':
         import numpy as np
@@ -1729,12 +1910,12 @@ def shrink(c):
     if P > 1 and c['nsrc'] == P and not c['two_d'] and c['source'] != 'sm':
         for p in range(P):
             zr = [z for i, z in enumerate(c['zrank']) if i != p]
-            order = sorted(range(P - 1), key=lambda i: zr[i])
-            zr2 = [0] * (P - 1)
-            for rank, i in enumerate(order):
-                zr2[i] = rank
+            dense = {z: rank for rank, z in enumerate(sorted(set(zr)))}     # ties stay ties
+            zr2 = [dense[z] for z in zr]
             req = list(range(1, P)) if c['byframe'] else list(range(P - 1))
-            yield dict(c, P=P - 1, nsrc=P - 1, data=c['data'][:p] + c['data'][p + 1:], zrank=zr2, req=req)
+            d = dict(c, P=P - 1, nsrc=P - 1, data=c['data'][:p] + c['data'][p + 1:], zrank=zr2, req=req)
+            d.pop('zstep', None)
+            yield d
     # clear pixels
     for p in range(P):
         for i in range(len(c['data'][p])):
